@@ -36,7 +36,7 @@ ANCHORS = ['io:from_json', 'io:from_yaml', 'io:from_yaml_all', 'io:write_json', 
            'classes:PaneBase.write_json', 'classes:PaneBase.write_yaml', 'classes:PaneBase.from_json', 'classes:PaneBase.from_yaml',
            'classes:PaneBase.from_yaml_all', 'classes:PaneBase.from_jsons', 'classes:PaneBase.from_yamls']
 MIN_COUNTERS = {'quick': {'round_trips': 8000, 'paths_opened_by_pane': 2500, 'caller_streams_checked': 3000, 'yaml_all_checked': 600,
-                          'returned_strings_checked': 300, 'non_ascii_payloads': 1200, 'failed_reads_checked': 300, 'offset_streams_checked': 300, 'foreign_encoding_streams_checked': 200}}
+                          'returned_strings_checked': 300, 'non_ascii_payloads': 1200, 'failed_reads_checked': 300, 'offset_streams_checked': 300, 'foreign_encoding_streams_checked': 200, 'wrapper_streams_checked': 150}}
 
 ALLOW = ('int', 'float', 'str', 'bool', 'none', 'list', 'seq', 'dict', 'tup', 'union', 'dc', 'enum', 'lit', 'fraction', 'decimal',
          'date', 'time', 'datetime', 'path', 'deque', 'sub', 'cc', 'set', 'bytes')
@@ -413,6 +413,45 @@ def run(ctx):
             del OPENED[:]
 
     drive.for_each_case(ctx, 'encoding-offset', 40, body_encoding_offset, gen=lambda c, r: Ty('int'), seconds=30)
+
+    # open streams that are not io.IOBase instances (tempfile.NamedTemporaryFile returns a delegating wrapper, codecs.open a
+    # StreamReaderWriter): they are the caller's streams all the same - written to, read from, left open, never taken for a path
+    def body_wrapper_streams(i, rng, ty, T):
+        import codecs as _codecs
+        import tempfile as _tempfile
+        import typing as _t
+        x = {'name': rng.choice(('plain', 'h\u00e9llo', '\u65e5\u672c')), 'n': str(rng.randrange(100))}
+        TT = _t.Dict[str, str]
+        fmt = rng.choice(('json', 'yaml'))
+        kind = rng.choice(('NamedTemporaryFile', 'codecs.open', 'TemporaryFile'))
+        if kind == 'NamedTemporaryFile':
+            stream = _tempfile.NamedTemporaryFile('w+', encoding='utf-8', dir=str(fresh(fmt).parent), suffix='.' + fmt)
+        elif kind == 'codecs.open':
+            stream = _codecs.open(str(fresh(fmt)), 'w+', encoding='utf-8')
+        else:
+            stream = _tempfile.TemporaryFile('w+', encoding='utf-8', dir=str(fresh(fmt).parent))
+        try:
+            w = write(fmt, x, stream, TT, {}, False)
+            ctx.count('wrapper_streams_checked')
+            ctx.count('caller_streams_checked')
+            ctx.case(('wrapper-streams', fmt, kind, w.kind), nontrivial=True)
+            wit = {'format': fmt, 'stream': kind, 'value': short(x, 100), 'write': w.brief()[:200]}
+            if w.kind != 'value' or stream.closed:
+                ctx.violation('caller-stream-left-open', 'wrapper-streams', i, {**wit, 'closed': stream.closed}, mech=f"wrapper-stream-refused-or-closed:{kind}")
+                return
+            stream.flush()
+            stream.seek(0)
+            r = read(fmt, stream, TT, False)
+            if r.kind != 'value' or r.val != x or stream.closed:
+                ctx.violation('round-trip', 'wrapper-streams', i, {**wit, 'read_back': r.brief()[:200], 'closed': stream.closed}, mech=f"wrapper-stream-read-failed:{kind}")
+        finally:
+            try:
+                stream.close()
+            except Exception:
+                pass
+            del OPENED[:]
+
+    drive.for_each_case(ctx, 'wrapper-streams', 30, body_wrapper_streams, gen=lambda c, r: Ty('int'), seconds=30)
 
     # ---- multi-document YAML: one converted value per document -------------------------------------------------------------
     def body_all(i, rng, ty, T):
